@@ -308,7 +308,11 @@ def r5_tx_commitment(ctx):
             for c in ctx.prog.closures_of(b):
                 ext = q.calls_to(c, "Vec::extend_from_slice")
                 ss = [sig(c.rec_call(t2, b2)[2][1]) for b2, t2 in ext]
-                r.check(ss == ["tmelcrypt::hash_single(StdcodeSerializeExt::stdcode(^tx)).0"], "tip908/leaf", "leaf = nosigs_hash ‖ hash(stdcode(tx))", "leaf extension is %s" % ss, "%s:%s" % (c.file, c.line))
+                FULLC = "tmelcrypt::hash_single(StdcodeSerializeExt::stdcode(^tx)).0"
+                # the closure's own parameter is the piped hash_nosigs(tx): `h.0.to_vec()` then one extension, or an empty vector (new / with_capacity) extended
+                # first with `h.0` and then with the full hash — the same concatenation
+                from_empty = not q.calls_matching(c, lambda n, p: n.split("::")[-1] == "to_vec") and bool(q.calls_matching(c, lambda n, p: n.split("::")[-1] in ("with_capacity", "new")))
+                r.check(ss == [FULLC] or (from_empty and ss == ["$2.0", FULLC]), "tip908/leaf", "leaf = nosigs_hash ‖ hash(stdcode(tx))", "leaf extension is %s" % ss, "%s:%s" % (c.file, c.line))
         elif pushed[0] == "var":
             # built in place: the byte sources appended to the pushed vector, in program order
             name = pushed[1]
@@ -319,7 +323,15 @@ def r5_tx_commitment(ctx):
                     parts.append(strip0(sig(q.novers(d[1][2][0])) if d[1][0] == "call" else sig(d[1])))
             for b2, e2 in q.call_exprs(b, "Vec::extend_from_slice"):
                 if sig(q.novers(mir.strip(e2[2][0]))) == name:
-                    parts.append(strip0(sig(q.novers(e2[2][1]))))
+                    pe = mir.strip(q.novers(e2[2][1]))
+                    # `for part in [a, b] { v.extend_from_slice(&part) }`: the element of a literal array stands for its members, in order
+                    inner = pe
+                    while inner[0] == "field" and inner[2] == "0":
+                        inner = inner[1]
+                    if inner[0] == "elem" and isinstance(inner[1], tuple) and inner[1][0] == "array" and len(inner[1]) == 2 and isinstance(inner[1][1], tuple):
+                        parts.extend(strip0(sig(x)) for x in inner[1][1] if isinstance(x, tuple))
+                    else:
+                        parts.append(strip0(sig(pe)))
             r.check(parts[:1] == [NOSIGS], "tip908/elem", "element starts with hash_nosigs(tx)", "the pushed vector is assembled from %s" % parts, b.where(bi))
             r.check(parts == [NOSIGS, FULL], "tip908/leaf", "leaf = nosigs_hash ‖ hash(stdcode(tx))", "leaf is assembled from %s" % parts, b.where(bi))
         else:
